@@ -14,6 +14,7 @@ def claimed():
 
 
 def write():
+    core.merge_known()
     checks = []
     for pid in claimed():
         mod = importlib.import_module("vlib.props." + pid.lower())
